@@ -10,7 +10,7 @@ PROPS_C13 = ['RunsOnlyCurrent', 'FrameAbandoned', 'OutOnceInLeft', 'InOnceInEnte
 def consts(**kw):
     K = dict(Hs={'A', 'B'}, MaxInst=4, MaxFrames=3, Incs={0, 2}, Sites={'p1', 'p2'},
              Reqs={'nop', 'switch', 'raise', 'quit', 'quit_loop', 'error', 'poke'},
-             SwitchClearsBeforeLoad=True, StartResetsInFinally=True)
+             SwitchClearsBeforeLoad=True, StartResetsInFinally=True, SelfSwitchByHandle=True)
     K.update(kw)
     return K
 
@@ -31,4 +31,27 @@ def check_and_replay(res, name, K, invariants, properties, own=None, depth_all=0
         res.absorb(st, name + ':random-walks', g)
     for s, labs, _t in replay.random_walks(g, 2, 6, res.seed + 1):
         res.sample({'config': name, 'calls': ['%s%s' % (n, list(a)) for n, a in labs]})
+    return g
+
+
+BIG = dict(Hs={'A', 'B', 'C'}, MaxInst=14, MaxFrames=25, Incs={0, 1, 3}, Sites={'p1', 'upd', 'co', 'p2'},
+           Reqs={'nop', 'switch', 'raise', 'quit', 'quit_loop', 'error', 'poke', 'clrquit', 'qlerr', 'switchq', 'direct', 'respawn'},
+           SwitchClearsBeforeLoad=True, StartResetsInFinally=True, SelfSwitchByHandle=True)
+
+
+def simulate_and_replay(res, name, num, depth, own=None, K=None):
+    """Beyond the dumpable instances: three handles, every request kind at every site, runs of up to 25 frames with
+    restarts of the same loop object - random behaviours from `tlc -simulate` on spec/LoopSim.tla (all invariants and
+    action properties checked along them), each replayed step by step on the real SimpleLoop."""
+    K = dict(K or BIG)
+    desper = common.import_desper()
+    g, paths = res.simulate_py('LoopSim', name, K, num, depth, invariants=INV, properties=PROPS_C13 + PROPS_C14)
+
+    def factory():
+        return LoopAdapter(desper, K)
+
+    st = replay.run_paths(g, factory, iter(paths), own=own, chunk=8)
+    res.absorb(st, name + ':simulated-behaviours', g)
+    if paths:
+        res.sample({'config': name, 'calls': ['%s%s' % (n, list(a)) for n, a in paths[0][1][:12]]})
     return g
